@@ -26,6 +26,7 @@ PROPERTIES = {
             ('C17-R7', cextra.rule_flag_mask_agreement, 'quick'),
             ('C09-R4', cextra.rule_extend_guards, 'quick'),
             ('C01-R6', cextra.rule_inverse_cleanup, 'quick'),
+            ('C01-R7', cextra.rule_sequence_shape, 'quick'),
         ],
     },
     'C02': {
@@ -133,6 +134,7 @@ PROPERTIES = {
             ('C14-R3', c14.rule_wcmatch_predicates, 'quick'),
             ('C14-R4', c14.rule_pruning, 'quick'),
             ('C15-R3', c14.rule_run_prologue, 'quick'),
+            ('C14-R5', cextra.rule_is_hidden, 'quick'),
         ],
     },
     'C15': {
